@@ -408,6 +408,9 @@ pub struct CtxShared {
     pub cmds: VecDeque<Cmd>,
     pub results: Vec<(&'static str, CtxOut)>,
     pub in_call: Option<&'static str>,
+    /// the application gives up on the run() call in progress: its future is dropped at its current suspension point
+    pub cancel_run: bool,
+    pub runs_cancelled: usize,
 }
 
 struct NextCmd(Rc<RefCell<CtxShared>>);
@@ -453,10 +456,27 @@ async fn ctx_main(mut ctx: PCtx, sh: Rc<RefCell<CtxShared>>) {
             }
             Cmd::Run => {
                 sh.borrow_mut().in_call = Some("run");
-                let r = ctx.run().await;
+                let r = {
+                    let fut = ctx.run();
+                    futures::pin_mut!(fut);
+                    let shc = sh.clone();
+                    futures::future::poll_fn(move |cx| {
+                        if shc.borrow().cancel_run {
+                            return Poll::Ready(None);
+                        }
+                        fut.as_mut().poll(cx).map(Some)
+                    })
+                    .await
+                };
                 let mut s = sh.borrow_mut();
                 s.in_call = None;
-                s.results.push(("run", CtxOut::Run(r.map_err(|e| sum_err(&e)))));
+                match r {
+                    Some(r) => s.results.push(("run", CtxOut::Run(r.map_err(|e| sum_err(&e))))),
+                    None => {
+                        s.cancel_run = false;
+                        s.runs_cancelled += 1;
+                    }
+                }
             }
             Cmd::MarkDisconnected(secs) => {
                 ctx.verif_mark_disconnected(secs);
@@ -592,7 +612,7 @@ pub struct Sim {
 impl Sim {
     pub fn new(seed: u64) -> Sim {
         let (ctx, handle) = PCtx::new();
-        let sh = Rc::new(RefCell::new(CtxShared { cmds: VecDeque::new(), results: Vec::new(), in_call: None }));
+        let sh = Rc::new(RefCell::new(CtxShared { cmds: VecDeque::new(), results: Vec::new(), in_call: None, cancel_run: false, runs_cancelled: 0 }));
         let reader = MockReader::new();
         let writer = MockWriter::new();
         let runq: RunQ = Arc::new(std::sync::Mutex::new(VecDeque::new()));
@@ -644,6 +664,19 @@ impl Sim {
 
     pub fn cmd(&mut self, c: Cmd) {
         self.ctx_sh.borrow_mut().cmds.push_back(c);
+        if let Some(t) = &self.ctx {
+            t.w.wake_by_ref();
+        }
+    }
+
+    /// Drops the future of the run() call in progress at its current suspension point (an application that wraps run()
+    /// in a timeout or a select). No effect when run() is not in progress.
+    pub fn cancel_run(&mut self) {
+        if self.ctx_sh.borrow().in_call != Some("run") {
+            return;
+        }
+        self.ctx_sh.borrow_mut().cancel_run = true;
+        self.note(|| "application drops the run() future".into());
         if let Some(t) = &self.ctx {
             t.w.wake_by_ref();
         }
